@@ -64,6 +64,23 @@ def eintr_scenarios():
     ]
 
 
+def fail_scenarios():
+    """(setup, op, tail): scripted failures of every system call of the op, and of every clean-up call after it"""
+    seg = ["1 new-shm 1 m0 %d" % (2 * P), "1 wr 1 0 5"]
+    tail = ["2 new-shm 12 m0 0", "obs", "2 lock 12", "2 unlock 12", "2 own 12", "2 free 12", "obs", "0 new-shm 13 m0 %d" % (P + 1), "0 rd 13 %d" % P, "obs"]
+    return [
+        ([], "0 new-shm 0 m0 %d" % P, tail),                                        # creator
+        (["1 crash 5 new-shm 1 m0 %d" % P, "1 new-shm 1 m0 0", "1 own 1", "2 crash 1 free 1"], "0 new-shm 0 m0 100", tail),   # creator that finds a stale lock (unlink / re-create loop)
+        (seg, "0 new-shm 0 m0 100", tail + ["1 rd 1 0", "obs"]),                     # follower
+        (seg, "0 new-shm 0 m0 0 ro", tail + ["1 rd 1 0", "obs"]),
+        (seg, "1 lock 1", ["1 lock 1", "obs"]),
+        (seg + ["1 lock 1"], "1 unlock 1", ["1 unlock 1", "obs"]),
+        (["0 new-shm 0 m0 %d" % P, "1 new-shm 1 m0 0"], "0 free 0", tail),          # the creator frees: munmap, shm_unlink, sem_close, sem_unlink
+        (seg + ["0 new-shm 0 m0 %d" % P], "0 free 0", tail),                        # a follower frees: munmap, sem_close
+        (seg + ["0 new-shm 0 m0 0", "0 own 0"], "0 free 0", tail),
+    ]
+
+
 def race_cases(rng, thorough):
     """two processes create the same name for the first time concurrently: every interleaving of the
     creator's 5 and the follower's 7 system calls (a first), mirrored samples, and unequal requests"""
@@ -121,13 +138,21 @@ def run(chk):
     for setup, op, tail in eintr_scenarios():
         eintr += ipc.eintr_cases(setup, op, tail, counts=(1, 2, 3, 4, 5, 6, 150, 1000) if thorough else (1, 2, 6, 150))
     chk.cov["eintr_cases"] = len(eintr)
+    fails = []
+    for setup, op, tail in fail_scenarios():
+        fails += [ipc.prefilter(c) for c in ipc.fail_cases(setup, op, tail)]
+    chk.cov["scripted_failure_cases"] = len(fails)
+    chk.bump("scripted system-call failure cases", len(fails))
     races = [ipc.prefilter(c) for c in race_cases(rng, thorough)]
     chk.cov["race_schedules"] = len(races)
     nr = 800 if thorough else 70
     rnd = [ipc.prefilter(ipc.gen_history(rng, chk, rng.choice([8, 25, 60]), sem_w=0.25, shm_w=1.0)) for _ in range(nr)]
+    rnd += [ipc.prefilter(ipc.sprinkle_failures(rng, ipc.gen_history(rng, chk, rng.choice([8, 25, 60]), sem_w=0.25, shm_w=1.0))) for _ in range(max(10, nr // 5))]
 
     R.run(corpus + BASIC + [ipc.prefilter(c) for c in LOCK_LOST], batch=1)
     R.run(crash + eintr, batch=20)
+    R.run([["0 null", "obs", "1 new-shm 0 m0 100", "1 null", "obs"]], batch=1)      # NULL guards of every public call
+    R.run(fails, batch=20)
     R.run(races, batch=30)
     R.run(rnd, batch=10)
     chk.cov["finding_cases"] = dict(R.sigs)
@@ -143,14 +168,15 @@ def run(chk):
     Rs = ipc_sysv.run_c07(chk, cfg, BASIC)
     if getattr(Rs, "new_violations", 0):
         R.found = True
-    R.conclude(BASIC + races[-60:] + crash + eintr + races[:-60] + rnd, "C07 shared memory")
+    R.conclude(BASIC + races[-60:] + crash + eintr + fails + races[:-60] + rnd, "C07 shared memory")
     chk.cov["harness_leftovers_in_dev_shm"] = fam.leftovers
     chk.cov["rule"] = ("op files over 3 worker processes x 4 names x 16 handles: p_shm_new with sizes 1..3 pages (re-open smaller / larger / zero / equal), byte stores and loads at offsets biased to 0, size-1 and page borders, "
                        "lock/unlock, take_ownership, free, SIGKILL; after every op: reported size, first bytes and checksum through every live handle, /proc/<pid>/maps entries of the segment per process, "
                        "/dev/shm presence and size, lock value (drained by an observer%s), system calls made — compared with model and spec; crash: SIGKILL before/after every system call of new/free/lock/unlock (8 scenarios) "
-                       "then new/take_ownership/free/new; EINTR n<=6 at every k; races: interleavings of two first-time p_shm_new replayed with gated system calls (quick: both windows + 100 sampled, thorough: all 330 + mirrored); distinct by op-file hash, non-trivial = more than one op; "
-                       "System V variant (harness/ipc_sysv.c, model PV.Model.IPCSysV, theorems PV.Props.C07sysv): the basic and recovery histories and random histories over 3 processes with SIGKILL of workers between calls, key files on tmpfs and on a file system that reuses inode numbers; "
-                       "every answer, segment size (shmctl), lock value (drained through the API), size/bytes/checksum through every live handle and the attachments of every process (/proc/self/maps) after every op compared with the spec column where the statement determines it, and EVERY answer line (system calls with flags and results, observer views) with the System V model column (tmpfs histories, the recorded findings incl. the inode-reuse one, crash points of new/free, EINTR scripts)"
+                       "then new/take_ownership/free/new; EINTR n<=6 at every k; scripted failures: every system call of p_shm_new (creator, creator with a stale lock, follower, read-only follower), lock, unlock and free (creator / follower / after take_ownership) fails "
+                       "(errno rotating over ENOMEM/EACCES/EMFILE/EINVAL/EBADF/ENOENT, opens also EEXIST/ENOENT/EINTR) and every later call of that run (close at each of its sites, munmap, shm_unlink, the lock semaphore's calls) fails too, then recovery through the API; NULL guards of every public call; races: interleavings of two first-time p_shm_new replayed with gated system calls (quick: both windows + 100 sampled, thorough: all 330 + mirrored); distinct by op-file hash, non-trivial = more than one op; "
+                       "System V variant (harness/ipc_sysv.c, model PV.Model.IPCSysV, theorems PV.Props.C07sysv; every answer line is also compared with the System V model column): the basic and recovery histories and random histories over 3 processes with SIGKILL of workers between calls, key files on tmpfs and on a file system that reuses inode numbers; "
+                       "every answer, segment size (shmctl), lock value (drained through the API), size/bytes/checksum through every live handle and the attachments of every process (/proc/self/maps) after every op compared with the spec column where the statement determines it"
                        % (", cross-checked with sem_getvalue" if thorough else ""))
     chk.assumptions += ipc.ASSUMPTIONS
     return chk.finish()
